@@ -8,7 +8,7 @@
    exp terms, outside the log domain). *)
 From Coq Require Import QArith Qcanon ZArith.
 From mathcomp Require Import all_ssreflect all_algebra.
-From GT Require Import QcField QcOrder Tensor DetExec LogDom Obj Factor Measure Pdf Cond Moments Approx EvalLemmas Spec C01_proofs PdfLemmas C04_proofs C1617_proofs.
+From GT Require Import QcField QcOrder Tensor DetExec LogDom Obj Factor Measure Pdf Cond Moments Approx EvalLemmas Spec C01_proofs PdfLemmas C04_proofs C0809_proofs C12_proofs C07_proofs C1617_proofs Extra_proofs.
 Local Close Scope Q_scope. Local Close Scope Qc_scope. Local Close Scope Z_scope.
 Import GRing.Theory Num.Theory.
 Local Open Scope ring_scope.
@@ -60,7 +60,21 @@ Proof. exact: het_Sigma_y_spec. Qed.
 Theorem C16_hetero_cross_covariance Dx (M : mat F) (b mux : vec F) (Sx : mat F) i j : (j < Dx)%N ->
   het_cov_yx Dx M b mux Sx i j = sumn Dx (fun a => M i a * Sx a j).
 Proof. exact: het_cov_yx_spec. Qed.
+
+(* the conditional transformation of the feature models is the Gaussian conditional of the matched joint:
+   gain G with G Cov(y) = Cov(x,y), offset mu_x - G mu_y, covariance sym(Sigma_x - G Cov(y,x)) *)
+Theorem C16_feature_conditional Dx Dk Dy (M : mat F) (b : vec F) (Sig : mat F) (Ex : vec F) (Exx : mat F) (Ek : vec F) (Ekx Ekk : mat F) (mux : vec F) (Sx : mat F) :
+  \det (mxf Dy Dy (fm_Sigma Dx Dk Dy M b Sig Ex Exx Ek Ekx Ekk)) != 0 ->
+  let Sy := mxf Dy Dy (fm_Sigma Dx Dk Dy M b Sig Ex Exx Ek Ekx Ekk) in
+  let Cyx := mxf Dy Dx (fm_cov_yx Dx Dk M b Ex Exx Ek Ekx mux) in
+  let G := mxf Dx Dy (fm_cond_M Dx Dk Dy M b Sig Ex Exx Ek Ekx Ekk mux) in
+  [/\ G *m Sy = Cyx^T,
+      cvf Dx (fm_cond_b Dx Dk Dy M b Sig Ex Exx Ek Ekx Ekk mux) = cvf Dx mux - G *m cvf Dy (fm_mu Dx Dk M b Ex Ek)
+    & mxf Dx Dx (fm_cond_Sigma Dx Dk Dy M b Sig Ex Exx Ek Ekx Ekk mux Sx)
+      = half F *: ((mxf Dx Dx Sx - G *m Cyx) + (mxf Dx Dx Sx - G *m Cyx)^T)].
+Proof. exact: fm_conditional_spec. Qed.
 End C16.
+Print Assumptions C16_feature_conditional.
 Print Assumptions C16_rbf_kernel.
 Print Assumptions C16_sem_kernel.
 Print Assumptions C16_feature_mean.
